@@ -955,7 +955,7 @@ func (e *Exec) nameValue(v Value, pfx string) Value {
 		}
 		n := e.fresh(pfx, "String")
 		e.assume("(= " + n + " " + x.T + ")")
-		return &StrV{T: n, Alts: x.Alts, Else: x.Else}
+		return &StrV{T: n, Alts: x.Alts, Else: x.Else, OID: x.OID}
 	case *StructV:
 		n := &StructV{F: make([]Value, len(x.F))}
 		for i := range x.F {
